@@ -149,10 +149,15 @@ impl Parser {
         let path = Self::import_path(path_node).to_err_vec()?;
 
         let no_extension = path.with_extension("");
-        let file_name = no_extension
-            .file_name()
-            .expect("not a file")
-            .to_string_lossy();
+        let Some(file_name) = no_extension.file_name() else {
+            // `import ..ms`, `import a/..`: the path has no final component to name the module after
+            return Err(vec![new_err(
+                path_span,
+                &input.user_data().get_source_file_name(),
+                "This path does not name a file".to_owned(),
+            )]);
+        };
+        let file_name = file_name.to_string_lossy();
 
         if input.user_data().has_name_been_mapped(&file_name) {
             return Err(vec![new_err(
